@@ -131,6 +131,27 @@ pub fn worker(prop: &str, tier: Tier, verif_seed: u64, start: u64, end: u64, str
     let mut st = WorkerStats::default();
     let mut fps: Vec<u64> = Vec::new();
     let announce = c.crash_is_violation();
+    // watchdog: a run that makes no progress in real time (a thread blocked on something the
+    // simulated runtime does not control) must not hang the check for ever
+    static HEARTBEAT: std::sync::atomic::AtomicU64 = std::sync::atomic::AtomicU64::new(0);
+    std::thread::spawn(|| {
+        let mut last = u64::MAX;
+        let mut stale = 0u32;
+        loop {
+            std::thread::sleep(std::time::Duration::from_secs(5));
+            let now = HEARTBEAT.load(std::sync::atomic::Ordering::Relaxed);
+            if now == last {
+                stale += 1;
+            } else {
+                stale = 0;
+                last = now;
+            }
+            if stale >= 36 {
+                eprintln!("harness error: run index {} did not finish within 180 s of wall-clock time (a thread is blocked outside the simulated runtime?)", now);
+                std::process::exit(3);
+            }
+        }
+    });
     let mut index = start;
     let mut sigs_seen: BTreeSet<String> = BTreeSet::new();
     let mut violating_runs = 0u64;
@@ -141,6 +162,7 @@ pub fn worker(prop: &str, tier: Tier, verif_seed: u64, start: u64, end: u64, str
             let _ = writeln!(o, "RUN {}", index);
             let _ = o.flush();
         }
+        HEARTBEAT.store(index, std::sync::atomic::Ordering::Relaxed);
         let (rs, sc) = gen_scenario(c, verif_seed, tier, index);
         let out = run_scenario(&sc, rs, None, false, false);
         let v = check_run(c, &sc, &out);
